@@ -236,7 +236,11 @@ def probe_table(cfg, acc):
     if cfg["perpoint"]:
         for mult in MAXIMA_MENU:
             mx = _maxima_series(cfg, mult)
-            bm = _binned(cfg, mx.copy())
+            mine = mx.copy()
+            bm = _binned(cfg, mine)
+            # the caller recycles its Series of maxima for the next load case (in place) before the tables are first used:
+            # the tables are those of the maxima the object was initialised with
+            mine.iloc[:] = 0.5 * mine.to_numpy()
             acc.evaluations += 1
             for node, m in zip(NODE_IDS, mult):
                 alone = _binned(cfg, m * cfg["L_max"])
